@@ -223,11 +223,12 @@ def cases(tier, seed):
     for u, v in hp:
         out.append(Case("H05.c", f"{u}~{v}", M, "h_hash", {"u": u, "v": v}, opts={"hash_mode": "const"}))
     # H05.d ordering
-    op_pairs = pairs[: (300 if big else 40)] + covers.cross_dim_pairs(seed + 1, 40 if big else 8)
+    pos_pairs = [(u, v) for u, v in pairs if covers.info(u).num > 0 and covers.info(v).num > 0]
+    op_pairs = pos_pairs[: (300 if big else 40)] + covers.cross_dim_pairs(seed + 1, 40 if big else 8)
     op_pairs += [(u, v) for u, v in itertools.permutations(temp, 2)]
     for u, v in op_pairs:
         out.append(Case("H05.d", f"{u}~{v}", M, "h_order", {"u": u, "v": v}))
-    for u, v in pairs[: (100 if big else 15)]:
+    for u, v in pos_pairs[: (100 if big else 15)]:
         out.append(Case("H05.d-unit", f"{u}~{v}", M, "h_unit_order", {"u": u, "v": v}, kind="conc"))
     # H05.e bare numbers
     for u in ["meter", "radian", "percent", "count", "degree", "kelvin", "degree_Celsius", "delta_degree_Celsius", "newton", "ppm", "byte"]:
